@@ -110,10 +110,10 @@ func Level(n Node) int {
 	case *Bin:
 		return OpLevel(n.Op)
 	case *Neg:
-		return 60
+		return 75 // tighter than * / %, looser than '.'
 	case *Num:
 		if n.V < 0 || (n.V == 0 && math.Signbit(n.V)) {
-			return 60
+			return 75
 		}
 		return 1000
 	case *Path:
@@ -138,6 +138,44 @@ func Level(n Node) int {
 		return n.Lvl
 	}
 	return 1000
+}
+
+// leftLevel is the binding power a node presents as a LEFT operand: an order-by
+// ends with its closing parenthesis, so nothing that follows can reach into it.
+func leftLevel(n Node) int {
+	if _, ok := n.(*Sort); ok {
+		return 1000
+	}
+	return Level(n)
+}
+
+// leftEdge is the loosest binding power exposed on a node's left spine: an
+// operator to the left that binds tighter than this would capture the node's
+// leftmost operand.
+func leftEdge(n Node) int {
+	min := func(a, b int) int {
+		if a < b {
+			return a
+		}
+		return b
+	}
+	switch n := n.(type) {
+	case *Bin:
+		return min(OpLevel(n.Op), leftEdge(n.L))
+	case *Apply:
+		return min(50, leftEdge(n.L))
+	case *Sort:
+		return min(50, leftEdge(n.X))
+	case *Cond:
+		return min(20, leftEdge(n.If))
+	case *Group:
+		return min(80, leftEdge(n.X))
+	case *Path:
+		if len(n.Steps) > 0 {
+			return min(Level(n), leftEdge(n.Steps[0]))
+		}
+	}
+	return Level(n)
 }
 
 func headIsName(p *Pred) bool {
@@ -234,7 +272,7 @@ func norm(n Node, inPath bool) Node {
 		return &Path{Steps: steps, Keep: keep}
 	case *Neg:
 		x := norm(n.X, false)
-		if Level(x) <= 60 {
+		if leftEdge(x) <= 70 {
 			x = wrap(x)
 		}
 		return &Neg{X: x}
@@ -248,7 +286,7 @@ func norm(n Node, inPath bool) Node {
 		return &Block{Exprs: normList(n.Exprs)}
 	case *Cond:
 		c := &Cond{If: norm(n.If, false), Then: norm(n.Then, false)}
-		if Level(c.If) <= 20 {
+		if leftLevel(c.If) <= 20 {
 			c.If = wrap(c.If)
 		}
 		if Level(c.Then) <= 20 {
@@ -305,7 +343,7 @@ func norm(n Node, inPath bool) Node {
 		return pr
 	case *Sort:
 		x := norm(n.X, false)
-		if Level(x) < 50 {
+		if leftLevel(x) < 50 {
 			x = wrap(x)
 		}
 		ts := make([]SortTerm, len(n.Terms))
@@ -344,10 +382,10 @@ func norm(n Node, inPath bool) Node {
 	case *Apply:
 		l := norm(n.L, false)
 		r := norm(n.R, false)
-		if Level(l) < 50 {
+		if leftLevel(l) < 50 {
 			l = wrap(l)
 		}
-		if Level(r) <= 50 {
+		if leftEdge(r) <= 50 {
 			r = wrap(r)
 		}
 		return &Apply{L: l, R: r}
@@ -355,15 +393,11 @@ func norm(n Node, inPath bool) Node {
 		p := OpLevel(n.Op)
 		l := norm(n.L, false)
 		r := norm(n.R, false)
-		if Level(l) < p {
+		if leftLevel(l) < p {
 			l = wrap(l)
 		}
-		if Level(r) <= p {
+		if leftEdge(r) <= p {
 			r = wrap(r)
-		}
-		switch l.(type) {
-		case *Lambda, *Transform:
-			l = wrap(l) // '/' after '}' or '|' would start a regex
 		}
 		return &Bin{Op: n.Op, L: l, R: r}
 	}
